@@ -185,6 +185,12 @@ func genC04(g *Rng, tier string, emit func(Op)) {
 				if nonrev {
 					cred.NonRevocationWitness = rs.witness
 				}
+				// the true values: one Credential object serves all the proofs below, and whatever a
+				// proof does to it must not change what later proofs report
+				truth := make([]*big.Int, len(cred.Attributes))
+				for i, a := range cred.Attributes {
+					truth[i] = new(big.Int).Set(a)
+				}
 				for mask := 0; mask < 1<<k; mask++ {
 					disclosed := subsetOf(mask, k)
 					// a disclosure *set* may be given in any order (e.g. the order of a verifier's
@@ -198,7 +204,7 @@ func genC04(g *Rng, tier string, emit func(Op)) {
 						}
 					}
 					if !nonrev {
-						emit(replayDOp(g, kp, cred, disclosed, mask%2 == 0))
+						emit(replayDOp(g, kp, cred, truth, disclosed, mask%2 == 0))
 					}
 					if len(disclosed) >= 1 && mask%4 == 3 {
 						disclosed = append(disclosed, disclosed[0]) // repeated index (model prover not involved)
@@ -224,7 +230,7 @@ func genC04(g *Rng, tier string, emit func(Op)) {
 						}
 						op := Op{"op": "memberD", "class": fmt.Sprintf("subset-k%d-nonrev%v", k, nonrev), "label": "accept", "key": kp.id,
 							"proof": tree, "context": hx(ctx), "nonce": hx(nonce), "issig": issig,
-							"attrs": hxs(cred.Attributes), "disclosed": intsAny(disclosed), "ts": hxs(ts)}
+							"attrs": hxs(truth), "disclosed": intsAny(disclosed), "ts": hxs(ts)}
 						if nonrev {
 							op["sigviews"] = sigViews(tree, []*KeyPair{kp})
 						}
@@ -233,7 +239,7 @@ func genC04(g *Rng, tier string, emit func(Op)) {
 							if j == 0 || (nonrev && j == len(cred.Attributes)-1) {
 								continue
 							}
-							rnd := new(big.Int).Sub(r, new(big.Int).Mul(proof.C, expOf(pk.Params.Lm, cred.Attributes[j])))
+							rnd := new(big.Int).Sub(r, new(big.Int).Mul(proof.C, expOf(pk.Params.Lm, truth[j])))
 							if rnd.BitLen() > maxbits {
 								maxbits = rnd.BitLen()
 							}
@@ -278,7 +284,7 @@ func init() {
 
 // replayDOp runs the real prover and records the randomness it drew (through the verif hooks)
 // so that the model prover can be replayed on exactly the same draws.
-func replayDOp(g *Rng, kp *KeyPair, cred *gabi.Credential, disclosed []int, issig bool) Op {
+func replayDOp(g *Rng, kp *KeyPair, cred *gabi.Credential, truth []*big.Int, disclosed []int, issig bool) Op {
 	pk := kp.pk
 	ctx, nonce := g.bits(256), g.bits(int(pk.Params.Lstatzk))
 	b, err := cred.CreateDisclosureProofBuilder(disclosed, nil, false)
@@ -302,7 +308,7 @@ func replayDOp(g *Rng, kp *KeyPair, cred *gabi.Credential, disclosed []int, issi
 	}
 	return Op{"op": "replayD", "class": "prover-replay", "key": kp.id,
 		"sig":   map[string]any{"A": hx(cred.Signature.A), "e": hx(cred.Signature.E), "v": hx(cred.Signature.V), "KeyshareP": nil},
-		"attrs": hxs(cred.Attributes), "disclosed": intsAny(disclosed),
+		"attrs": hxs(truth), "disclosed": intsAny(disclosed),
 		"rnd":     map[string]any{"r": hx(r), "eCommit": hx(eC), "vCommit": hx(vC), "attr": attrs},
 		"context": hx(ctx), "nonce": hx(nonce), "issig": issig, "produced": canonD(proof)}
 }
